@@ -53,7 +53,8 @@ class IntegerNode(BaseNode, SelectNode):
                 self.value_raw = s.solve(self.value_fn, self.units_raw)
         if self.value_expr: # Process expression
             with NumericalSolver(env) as s:
-                self.value_raw = np.round(s.solve(self.value_expr, self.units_raw))
+                # the result is stored like a written literal (a number 0 must not read as 'no value')
+                self.value_raw = repr(int(np.round(s.solve(self.value_expr, self.units_raw))))
         # Testing validity of units
         if self.units_raw:
             with UnitEnvironment(env.units):
